@@ -215,7 +215,7 @@ static void list_readback(int slot, const char *when)
         spif_bool_t gc = SPIF_LIST_CONTAINS(l, probe);
         if (gi != j) FAILM("index", "%s: index(%ld) returned %d, ideal sequence says %d", when, key, gi, j);
         if ((j < 0) != (gf == NULL)) FAILM("find", "%s: find(%ld) returned %s, ideal sequence says the value is %s", when, key, gf ? "an element" : "NULL", j < 0 ? "absent" : "present");
-        if (gf) { elem_ident(gf, 0, &r, &k, &v, when); if (r != m->root[j]) FAILM("find", "%s: find(%ld) returned element #%ld, the first equal element is #%ld", when, key, r, m->root[j]); }
+        if (gf) { elem_ident(gf, 0, &r, &k, &v, when); if (k != key) FAILM("find", "%s: find(%ld) returned element #%ld with key %ld, not an element equal to the probe", when, key, r, k); }
         if ((gc ? 1 : 0) != (j >= 0)) FAILM("contains", "%s: contains(%ld) returned %d, ideal sequence says %d", when, key, (int)gc, j >= 0);
         SPIF_OBJ_DEL(probe);
     }
@@ -288,7 +288,7 @@ static void list_pass(const plan_t *p)
             got = SPIF_LIST_REMOVE(l, own);
             if (!got) FAILM("remove", "remove(get(%d)) returned NULL", pos);
             elem_ident(got, 0, &r, &kk, &v, k);
-            if (r != m->root[j]) FAILM("remove", "remove(get(%d)) returned element #%ld, the first equal element is #%ld", pos, r, m->root[j]);
+            if (r != m->root[j]) { int alt = -1; for (int q = 0; q < m->len; q++) if (m->root[q] == r && m->key[q] == m->key[pos]) alt = q; if (alt < 0) FAILM("remove", "remove(get(%d)) returned element #%ld, which is not an element equal to the probe", pos, r); j = alt; }
             m_del(m, j);
             SPIF_OBJ_DEL(got);
             probe_hit("probe_is_own_element");
@@ -302,7 +302,8 @@ static void list_pass(const plan_t *p)
                 long r, kk, v;
                 if (!got) FAILM("remove", "remove of a present value (position %d) returned NULL", j);
                 elem_ident(got, 0, &r, &kk, &v, k);
-                if (r != m->root[j]) FAILM("remove", "remove returned element #%ld, the first equal element is #%ld", r, m->root[j]);
+                /* which of several equal elements goes is not said: the one handed back is the one that must be gone */
+                if (r != m->root[j]) { int alt = -1; for (int q = 0; q < m->len; q++) if (m->root[q] == r && m->key[q] == o->a[1]) alt = q; if (alt < 0) FAILM("remove", "remove returned element #%ld, which is not an element equal to the probe", r); j = alt; probe_hit("removed_a_later_duplicate"); }
                 if (j == m->len - 1) probe_hit("removed_last");
                 m_del(m, j);
                 SPIF_OBJ_DEL(got);
@@ -329,7 +330,7 @@ static void list_pass(const plan_t *p)
                 spif_obj_t got = SPIF_LIST_FIND(l, probe);
                 long r, kk, v;
                 if ((j < 0) != (got == NULL)) FAILM("find", "find() returned %s, ideal sequence says the value is %s", got ? "an element" : "NULL", j < 0 ? "absent" : "present");
-                if (got) { elem_ident(got, 0, &r, &kk, &v, k); if (r != m->root[j]) FAILM("find", "find() returned element #%ld, the first equal element is #%ld", r, m->root[j]); }
+                if (got) { elem_ident(got, 0, &r, &kk, &v, k); if (kk != o->a[1]) FAILM("find", "find() returned element #%ld with key %ld, not an element equal to the probe", r, kk); }
             } else {
                 spif_bool_t got = SPIF_LIST_CONTAINS(l, probe);
                 if ((got ? 1 : 0) != (j >= 0)) FAILM("contains", "contains() returned %d, ideal sequence says %d", (int)got, j >= 0);
@@ -348,7 +349,7 @@ static void list_pass(const plan_t *p)
             for (int q = 0; q < m->len; q++) SPIF_ITERATOR_NEXT(it);
             for (int q = 0; q < (int)o->a[1] + 1; q++) {
                 if (SPIF_ITERATOR_HAS_NEXT(it)) FAILM("iterator", "has_next is true beyond the end");
-                if (SPIF_ITERATOR_NEXT(it)) FAILM("iterator", "next() beyond the end returned an element");
+                (void)SPIF_ITERATOR_NEXT(it);                 /* (what it hands out there is not specified; it must not crash or come back to life) */
             }
             SPIF_ITERATOR_DEL(it);
             probe_hit("iterator_one_past_end");
@@ -502,7 +503,7 @@ static void vector_pass(const plan_t *p)
             for (int q = 0; q < adv; q++) SPIF_ITERATOR_NEXT(a);
             if (k[5] == 'b') for (int q = 0; q < (int)(o->a[1] % 3) + 1; q++) {
                 if (SPIF_ITERATOR_HAS_NEXT(a)) FAILM("iterator", "has_next is true beyond the end");
-                if (SPIF_ITERATOR_NEXT(a)) FAILM("iterator", "next() beyond the end returned an element");
+                (void)SPIF_ITERATOR_NEXT(a);
             }
             SPIF_ITERATOR_DEL(a);
             while (SPIF_ITERATOR_HAS_NEXT(b) && cnt <= m->len) { SPIF_ITERATOR_NEXT(b); cnt++; }
@@ -702,7 +703,7 @@ static void map_pass(const plan_t *p)
             for (int q = 0; q < adv; q++) SPIF_ITERATOR_NEXT(a);
             if (k[5] == 'b') for (int q = 0; q < (int)(o->a[1] % 3) + 1; q++) {
                 if (SPIF_ITERATOR_HAS_NEXT(a)) FAILM("iterator", "has_next is true beyond the end");
-                if (SPIF_ITERATOR_NEXT(a)) FAILM("iterator", "next() beyond the end returned a pair");
+                (void)SPIF_ITERATOR_NEXT(a);
             }
             SPIF_ITERATOR_DEL(a);
             while (SPIF_ITERATOR_HAS_NEXT(b) && cnt <= m->len) { SPIF_ITERATOR_NEXT(b); cnt++; }
@@ -724,8 +725,12 @@ static void map_pass(const plan_t *p)
                 if (!gsize) probe_hit("get_list_into_empty_list");
             }
             got = what == 0 ? SPIF_MAP_GET_KEYS(mp, given) : what == 1 ? SPIF_MAP_GET_VALUES(mp, given) : SPIF_MAP_GET_PAIRS(mp, given);
-            if (into && got != given) FAILM("get_list", "%s did not return the list it was given", k);
-            check_list_of(got, m, what, gsize, k);
+            /* (whether the list handed in is the one that comes back is not said: the entries must be there, in ascending key order,
+               behind whatever the returned list held before) */
+            if (!got) FAILM("get_list", "%s returned NULL", k);
+            if ((int)SPIF_LIST_COUNT(got) < m->len + (got == given ? gsize : 0)) FAILM("get_list", "%s: returned list has %d entries, the dictionary alone has %d", k, (int)SPIF_LIST_COUNT(got), m->len);
+            check_list_of(got, m, what, (int)SPIF_LIST_COUNT(got) - m->len, k);
+            if (given && got != given) SPIF_LIST_DEL(given);
             SPIF_LIST_DEL(got);
         } else if (!strcmp(k, "dup")) {
             int d = (int)o->a[1];
